@@ -48,7 +48,6 @@
 #include "src/kernel/actor/SimcallObserver.hpp"
 #include "src/kernel/actor/SynchroObserver.hpp"
 #include "src/kernel/actor/WaitTestObserver.hpp"
-#include "src/mc/mc_base.hpp"
 #include "src/mc/transition/Transition.hpp"
 #include "src/smpi/include/smpi_request.hpp"
 #include "src/verif_hooks.hpp"
@@ -222,6 +221,14 @@ static std::string comm_desc(const kv::CommImpl* c)
          S(pid_of(c->dst_actor_.get())) + ":" + c->get_state_str() + (c->is_detached() ? ":det" : "");
 }
 
+// same evaluation as mc::actor_is_enabled (a hidden symbol of libsimgrid)
+static bool my_actor_is_enabled(ka::ActorImpl* actor)
+{
+  if (actor->simcall_.observer_ != nullptr)
+    return actor->simcall_.observer_->is_enabled();
+  return actor->simcall_.call_ != ka::Simcall::Type::NONE;
+}
+
 static std::string fingerprint()
 {
   std::string s;
@@ -281,7 +288,7 @@ static std::string fingerprint()
   // pending simcall of every actor, as the application describes it
   for (auto const& [pid, actor] : simgrid::kernel::EngineImpl::get_instance()->get_actor_list()) {
     auto* o = actor->simcall_.observer_;
-    s += "p" + S(pid) + ":" + (simgrid::mc::actor_is_enabled(actor) ? "en" : "dis") + ":" + observer_view(o) + " ; ";
+    s += "p" + S(pid) + ":" + (my_actor_is_enabled(actor) ? "en" : "dis") + ":" + observer_view(o) + " ; ";
   }
   return s;
 }
